@@ -511,6 +511,13 @@ struct Explorer {
             x.facts.set("stmt", s.id);
             x.facts.set("producer", ps.id);
             out->push_back(x);
+            if (x.prop == "C05") {
+              // a failed producer has not "finished successfully" either: the same start violates C04
+              Violation y = x;
+              y.prop = "C04";
+              y.clause = "started-although-producer-failed";
+              out->push_back(y);
+            }
           }
         }
       }
